@@ -74,6 +74,9 @@ type c20Flow struct {
 	// AcceptTwice: the same offer object is accepted a second time (other receive / change scripts)
 	// after the first completed transaction was handed back; the first one belongs to its owner
 	AcceptTwice bool `json:"offer_accepted_twice,omitempty"`
+	// SellerQuoteExtra: the quote the seller validates a bid against (ExpectedFQ) asks this many
+	// satoshis more per Quote.Bytes than the quote the bidder built the bid with
+	SellerQuoteExtra int `json:"seller_quote_extra_sat,omitempty"`
 }
 
 type c20Inscr struct {
@@ -200,6 +203,12 @@ func c20JudgeFlow(c *mon.Ctx, f *c20Flow) {
 		coins[outKey(id, u.Vout)] = c20Coin{v, append([]byte{}, *buyerScript...)}
 	}
 	fq := mkQuote(f.Quote)
+	sellerQ := f.Quote
+	sellerQ.Sat += f.SellerQuoteExtra
+	sellerFQ := fq // what the seller validates a bid against
+	if f.SellerQuoteExtra != 0 {
+		sellerFQ = mkQuote(sellerQ)
+	}
 	changeScript := bscript.NewFromBytes(append([]byte{}, *buyerScript...))
 	if f.ChangeLen != 25 {
 		cs := bytes.Repeat([]byte{0x51}, f.ChangeLen)
@@ -236,7 +245,7 @@ func c20JudgeFlow(c *mon.Ctx, f *c20Flow) {
 	var err error
 	var sellerOut *bt.Output
 	wantSellerIdx := -1
-	var second func() // the same offer accepted once more, by someone else
+	var second func() *bt.Tx // the same offer accepted once more, by someone else / the same funding list used for a second offer
 	ok := c.Try("ord."+f.Flow, func() {
 		switch f.Flow {
 		case "listing", "listing-2d":
@@ -268,9 +277,10 @@ func c20JudgeFlow(c *mon.Ctx, f *c20Flow) {
 			}
 			final, err = accept(args)
 			if f.AcceptTwice && err == nil && final != nil {
-				second = func() {
+				second = func() *bt.Tx {
 					other := bscript.NewFromBytes(gen.P2PKH(bytes.Repeat([]byte{0x5c}, 20)))
-					_, _ = accept(&ord.AcceptListingArgs{PSTx: wire, UTXOs: utxos, BuyerReceiveOrdinalScript: other, DummyOutputScript: other, ChangeScript: bscript.NewFromBytes(gen.P2PKH(bytes.Repeat([]byte{0x5d}, 20))), FQ: fq})
+					t2, _ := accept(&ord.AcceptListingArgs{PSTx: wire, UTXOs: utxos, BuyerReceiveOrdinalScript: other, DummyOutputScript: other, ChangeScript: bscript.NewFromBytes(gen.P2PKH(bytes.Repeat([]byte{0x5d}, 20))), FQ: fq})
+					return t2
 				}
 			}
 		case "bid":
@@ -280,12 +290,19 @@ func c20JudgeFlow(c *mon.Ctx, f *c20Flow) {
 			if err != nil {
 				return
 			}
-			final, err = ord.AcceptBidToBuy1SatOrdinal(ctx, &ord.ValidateBidArgs{OrdinalUTXO: expected, BidAmount: uint64(int64(f.Price) + f.AcceptDelta), ExpectedFQ: fq},
+			final, err = ord.AcceptBidToBuy1SatOrdinal(ctx, &ord.ValidateBidArgs{OrdinalUTXO: expected, BidAmount: uint64(int64(f.Price) + f.AcceptDelta), ExpectedFQ: sellerFQ},
 				&ord.AcceptBidArgs{PSTx: pstx, SellerReceiveScript: bscript.NewFromBytes(append([]byte{}, *sellerRecv...)), OrdinalUnlocker: sellerUnlocker})
 			if f.AcceptTwice && err == nil && final != nil {
-				second = func() {
-					_, _ = ord.AcceptBidToBuy1SatOrdinal(ctx, &ord.ValidateBidArgs{OrdinalUTXO: expected, BidAmount: uint64(int64(f.Price) + f.AcceptDelta), ExpectedFQ: fq},
+				second = func() *bt.Tx {
+					// the bidder, whose coins are unspent until a bid is accepted, makes a second bid from the same funding list
+					if t2, e2 := ord.MakeBidToBuy1SatOrdinal(ctx, &ord.MakeBidArgs{BidAmount: f.Price, OrdinalTxID: hex.EncodeToString(crypto.Sha256(f.OrdTxID)), OrdinalVOut: f.OrdVout, // another ordinal, from a transaction none of the funding coins comes from
+
+						BidderUTXOs: utxos, BuyerReceiveOrdinalScript: buyerRecv, DummyOutputScript: dummyScript, ChangeScript: changeScript, FQ: fq}); e2 == nil && t2 != nil {
+						c20NoOutpointTwice(c, f.Flow+":second-bid-from-the-same-funding-list", t2)
+					}
+					t2, _ := ord.AcceptBidToBuy1SatOrdinal(ctx, &ord.ValidateBidArgs{OrdinalUTXO: expected, BidAmount: uint64(int64(f.Price) + f.AcceptDelta), ExpectedFQ: fq},
 						&ord.AcceptBidArgs{PSTx: pstx, SellerReceiveScript: bscript.NewFromBytes(gen.P2PKH(bytes.Repeat([]byte{0x5c}, 20))), OrdinalUnlocker: sellerUnlocker})
+					return t2
 				}
 			}
 		case "bid-2d":
@@ -311,12 +328,18 @@ func c20JudgeFlow(c *mon.Ctx, f *c20Flow) {
 				extras = append(extras, &bt.UTXO{TxID: id, Vout: uint32(i), LockingScript: bscript.NewFromBytes(append([]byte{}, *sellerScript...)), Satoshis: v, Unlocker: &sellerUnlocker})
 				coins[outKey(id, uint32(i))] = c20Coin{v, append([]byte{}, *sellerScript...)}
 			}
-			final, err = ord.AcceptBidToBuy1SatOrdinal2Dummies(ctx, &ord.ValidateBid2DArgs{PreviousUTXOs: prevs, BidAmount: uint64(int64(f.Price) + f.AcceptDelta), ExpectedFQ: fq},
+			final, err = ord.AcceptBidToBuy1SatOrdinal2Dummies(ctx, &ord.ValidateBid2DArgs{PreviousUTXOs: prevs, BidAmount: uint64(int64(f.Price) + f.AcceptDelta), ExpectedFQ: sellerFQ},
 				&ord.AcceptBid2DArgs{PSTx: pstx, SellerReceiveOrdinalScript: bscript.NewFromBytes(append([]byte{}, *sellerRecv...)), OrdinalUnlocker: sellerUnlocker, ExtraUTXOs: extras})
 			if f.AcceptTwice && err == nil && final != nil {
-				second = func() {
-					_, _ = ord.AcceptBidToBuy1SatOrdinal2Dummies(ctx, &ord.ValidateBid2DArgs{PreviousUTXOs: prevs, BidAmount: uint64(int64(f.Price) + f.AcceptDelta), ExpectedFQ: fq},
+				second = func() *bt.Tx {
+					if t2, e2 := ord.MakeBidToBuy1SatOrdinal2Dummies(ctx, &ord.MakeBid2DArgs{BidAmount: f.Price, OrdinalTxID: hex.EncodeToString(crypto.Sha256(f.OrdTxID)), OrdinalVOut: f.OrdVout, // another ordinal, from a transaction none of the funding coins comes from
+
+						BidderUTXOs: utxos, BuyerReceiveOrdinalScript: buyerRecv, DummyOutputScript: dummyScript, ChangeScript: changeScript, FQ: fq}); e2 == nil && t2 != nil {
+						c20NoOutpointTwice(c, f.Flow+":second-bid-from-the-same-funding-list", t2)
+					}
+					t2, _ := ord.AcceptBidToBuy1SatOrdinal2Dummies(ctx, &ord.ValidateBid2DArgs{PreviousUTXOs: prevs, BidAmount: uint64(int64(f.Price) + f.AcceptDelta), ExpectedFQ: fq},
 						&ord.AcceptBid2DArgs{PSTx: pstx, SellerReceiveOrdinalScript: bscript.NewFromBytes(gen.P2PKH(bytes.Repeat([]byte{0x5c}, 20))), OrdinalUnlocker: sellerUnlocker, ExtraUTXOs: extras})
+					return t2
 				}
 			}
 		}
@@ -331,8 +354,12 @@ func c20JudgeFlow(c *mon.Ctx, f *c20Flow) {
 	c.Count("flow:" + f.Flow + ":completed")
 	if second != nil {
 		first := append([]byte{}, final.Bytes()...)
-		if c.Try("ord."+f.Flow+"(same offer again)", second) {
+		var t2 *bt.Tx
+		if c.Try("ord."+f.Flow+"(same offer again)", func() { t2 = second() }) {
 			c.Count("flow:" + f.Flow + ":offer-accepted-a-second-time")
+			if t2 != nil {
+				c20NoOutpointTwice(c, f.Flow+":second-acceptance", t2)
+			}
 			if !bytes.Equal(final.Bytes(), first) {
 				c.Violationf("C20:completed-tx-changed-by-a-later-acceptance:"+f.Flow, "the transaction completed from an offer changed when the same offer object was accepted again with other scripts: was %x, is now %x", first, final.Bytes())
 			}
@@ -342,7 +369,7 @@ func c20JudgeFlow(c *mon.Ctx, f *c20Flow) {
 		c.Violationf("C20:completed-although-the-offer-spends-another-outpoint:"+f.Flow, "the offer spends %x:%d, it was validated against %x:%d (mismatch kind %d) and the flow completed a transaction instead of refusing", f.OrdTxID, f.OrdVout, expected.TxID, expected.Vout, f.ExpectOther)
 		return
 	}
-	good := true
+	good := c20NoOutpointTwice(c, f.Flow, final)
 	// (1) every input is accepted by the interpreter against the coin it spends
 	inSum, outSum := new(big.Int), new(big.Int)
 	ordIdx := -1
@@ -422,11 +449,19 @@ func c20JudgeFlow(c *mon.Ctx, f *c20Flow) {
 	}
 	// (4) pays at least the quoted fee on its actual size
 	size := len(final.Bytes())
-	req := new(big.Int).Div(new(big.Int).Mul(big.NewInt(int64(size)), big.NewInt(int64(f.Quote.Sat))), big.NewInt(int64(f.Quote.Bytes)))
+	// (in the bid flows the seller accepted against its own quote, which is never below the bidder's here)
+	rate := f.Quote.Sat
+	qtag := ""
+	if (f.Flow == "bid" || f.Flow == "bid-2d") && f.SellerQuoteExtra > 0 {
+		rate = sellerQ.Sat
+		qtag = ":seller-validated-against-a-higher-quote"
+		c.Count("flow:" + f.Flow + ":completed-under-a-higher-seller-quote")
+	}
+	req := new(big.Int).Div(new(big.Int).Mul(big.NewInt(int64(size)), big.NewInt(int64(rate))), big.NewInt(int64(f.Quote.Bytes)))
 	paid := new(big.Int).Sub(inSum, outSum)
 	if paid.Cmp(req) < 0 {
 		good = false
-		c.Violationf("C20:underpays-quoted-fee:"+f.Flow, "completed %s tx of %d bytes pays %s sat, the quote (%d sat / %d bytes) requires %s; funding=%v price=%d; tx=%x", f.Flow, size, paid, f.Quote.Sat, f.Quote.Bytes, req, f.Funding, f.Price, final.Bytes())
+		c.Violationf("C20:underpays-quoted-fee:"+f.Flow+qtag, "completed %s tx of %d bytes pays %s sat, the quote (%d sat / %d bytes) requires %s; funding=%v price=%d; tx=%x", f.Flow, size, paid, rate, f.Quote.Bytes, req, f.Funding, f.Price, final.Bytes())
 	} else {
 		c.Count("C20:fee-covered")
 	}
@@ -609,6 +644,10 @@ func init() {
 			f.Wallet = prng.Pick(r, []int{0, 0, 1, 2, 3, 3})
 			f.OneScriptObject = f.ChangeLen == 25 && i%5 == 3
 			f.AcceptTwice = i%7 == 2 || i%7 == 5
+			if (f.Flow == "bid" || f.Flow == "bid-2d") && i%3 == 1 {
+				// a little more than the bidder's rate: at least one satoshi more per Quote.Bytes, at most a tenth more
+				f.SellerQuoteExtra = 1 + int(i/12)%(1+f.Quote.Sat/10)
+			}
 			if i%9 == 4 {
 				f.ExpectOther = 1 + int(i/9)%3
 			}
@@ -771,4 +810,20 @@ func min64(a, b int64) int64 {
 		return a
 	}
 	return b
+}
+
+// c20NoOutpointTwice: a transaction that spends one outpoint in two of its inputs is invalid on every node,
+// whatever its scripts say.
+func c20NoOutpointTwice(c *mon.Ctx, what string, tx *bt.Tx) bool {
+	seen := map[string]int{}
+	for i, in := range tx.Inputs {
+		k := outKey(in.PreviousTxID(), in.PreviousTxOutIndex)
+		if j, dup := seen[k]; dup {
+			c.Violationf("C20:outpoint-spent-twice:"+what, "the flow returned a transaction whose inputs %d and %d spend the same outpoint %x:%d; tx=%x", j, i, in.PreviousTxID(), in.PreviousTxOutIndex, tx.Bytes())
+			return false
+		}
+		seen[k] = i
+	}
+	c.Count("C20:inputs-pairwise-distinct")
+	return true
 }
